@@ -14,6 +14,25 @@ static void print_hex(const sqfs_u8 *value, size_t len)
 		printf("%02X", *(value++));
 }
 
+static void print_text(const sqfs_u8 *value, size_t len)
+{
+	fputc('"', stdout);
+
+	while (len--) {
+		sqfs_u8 x = *(value++);
+
+		if (x == '"' || x == '\\') {
+			printf("\\%c", x);
+		} else if (x < 0x20) {
+			printf("\\%03o", x);
+		} else {
+			fputc(x, stdout);
+		}
+	}
+
+	fputc('"', stdout);
+}
+
 static bool is_printable(const sqfs_u8 *value, size_t len)
 {
 	size_t utf8_cont = 0;
@@ -87,11 +106,12 @@ int dump_xattrs(sqfs_xattr_reader_t *xattr, const sqfs_inode_generic_t *inode)
 		}
 
 		if (is_printable(ent->value, ent->value_len)) {
-			printf("%s\n", ent->value);
+			print_text(ent->value, ent->value_len);
 		} else {
 			print_hex(ent->value, ent->value_len);
-			printf("\n");
 		}
+
+		printf("\n");
 	}
 
 	sqfs_xattr_list_free(list);
